@@ -573,35 +573,35 @@ example : Holds { sampleAccepted with level := "strict" }
 /-! ### concretisation (round-5 follow-up): several trust stores, constructors, revocation supply -/
 
 section Irrel
-variable (i : Input) (st : List StoreKind) (impl ctor supply : String)
+variable (i : Input) (st : List StoreKind) (impl ctor supply : String) (sch : String) (cl bc : Nat) (bh : String)
 
 theorem respondCaps_irrel (enf : Enf) (l : List String) (s : St) :
-    respondCaps { i with stores := st, storeImpl := impl, ctor := ctor, revSupply := supply } enf l s = respondCaps i enf l s := by
+    respondCaps { i with stores := st, storeImpl := impl, ctor := ctor, revSupply := supply, scheme := sch, chainLen := cl, badCert := bc, badHow := bh } enf l s = respondCaps i enf l s := by
   induction l generalizing s with
   | nil => rfl
   | cons c rest ih => simp only [respondCaps, respondCap, ih]
 
 theorem process_irrel (enf : Enf) :
-    process { i with stores := st, storeImpl := impl, ctor := ctor, revSupply := supply } enf = process i enf := by
-  have h1 : discover { i with stores := st, storeImpl := impl, ctor := ctor, revSupply := supply } = discover i := by
+    process { i with stores := st, storeImpl := impl, ctor := ctor, revSupply := supply, scheme := sch, chainLen := cl, badCert := bc, badHow := bh } enf = process i enf := by
+  have h1 : discover { i with stores := st, storeImpl := impl, ctor := ctor, revSupply := supply, scheme := sch, chainLen := cl, badCert := bc, badHow := bh } = discover i := by
     funext s; rfl
-  have h2 : authStage { i with stores := st, storeImpl := impl, ctor := ctor, revSupply := supply } enf = authStage i enf := by
+  have h2 : authStage { i with stores := st, storeImpl := impl, ctor := ctor, revSupply := supply, scheme := sch, chainLen := cl, badCert := bc, badHow := bh } enf = authStage i enf := by
     funext s; rfl
-  have h3 : expiryStage { i with stores := st, storeImpl := impl, ctor := ctor, revSupply := supply } enf = expiryStage i enf := by
+  have h3 : expiryStage { i with stores := st, storeImpl := impl, ctor := ctor, revSupply := supply, scheme := sch, chainLen := cl, badCert := bc, badHow := bh } enf = expiryStage i enf := by
     funext s; rfl
-  have h4 : timestampStage { i with stores := st, storeImpl := impl, ctor := ctor, revSupply := supply } enf = timestampStage i enf := by
+  have h4 : timestampStage { i with stores := st, storeImpl := impl, ctor := ctor, revSupply := supply, scheme := sch, chainLen := cl, badCert := bc, badHow := bh } enf = timestampStage i enf := by
     funext s; rfl
-  have h5 : revocationStage { i with stores := st, storeImpl := impl, ctor := ctor, revSupply := supply } enf = revocationStage i enf := by
+  have h5 : revocationStage { i with stores := st, storeImpl := impl, ctor := ctor, revSupply := supply, scheme := sch, chainLen := cl, badCert := bc, badHow := bh } enf = revocationStage i enf := by
     funext s; rfl
-  have h6 : pluginStage { i with stores := st, storeImpl := impl, ctor := ctor, revSupply := supply } enf = pluginStage i enf := by
-    have hp : ∀ caps s, processResponse { i with stores := st, storeImpl := impl, ctor := ctor, revSupply := supply } enf caps s =
+  have h6 : pluginStage { i with stores := st, storeImpl := impl, ctor := ctor, revSupply := supply, scheme := sch, chainLen := cl, badCert := bc, badHow := bh } enf = pluginStage i enf := by
+    have hp : ∀ caps s, processResponse { i with stores := st, storeImpl := impl, ctor := ctor, revSupply := supply, scheme := sch, chainLen := cl, badCert := bc, badHow := bh } enf caps s =
         processResponse i enf caps s := by
       intro caps s; unfold processResponse; rw [respondCaps_irrel]
     funext s; unfold pluginStage; simp only [hp]; try rfl
   simp only [process, processE, h1, h2, h3, h4, h5, h6]
 
 theorem clausesFor_irrel (enf : Enf) (o : Obs) :
-    clausesFor { i with stores := st, storeImpl := impl, ctor := ctor, revSupply := supply } enf o = clausesFor i enf o := by
+    clausesFor { i with stores := st, storeImpl := impl, ctor := ctor, revSupply := supply, scheme := sch, chainLen := cl, badCert := bc, badHow := bh } enf o = clausesFor i enf o := by
   rfl
 
 /-- The verdict, every reported result and every clause of the property are the same whatever
@@ -610,14 +610,34 @@ lists and where the unloadable one stands, which trust store implementation serv
 public constructor built the verifier and through which option the revocation checker was
 supplied. (The harness varies exactly these and the real code has to agree with the model.) -/
 theorem concretisation_irrelevant (o : Obs) :
-    run { i with stores := st, storeImpl := impl, ctor := ctor, revSupply := supply } = run i ∧
-    clauses { i with stores := st, storeImpl := impl, ctor := ctor, revSupply := supply } o = clauses i o ∧
-    inDomain { i with stores := st, storeImpl := impl, ctor := ctor, revSupply := supply } = inDomain i := by
+    run { i with stores := st, storeImpl := impl, ctor := ctor, revSupply := supply, scheme := sch, chainLen := cl, badCert := bc, badHow := bh } = run i ∧
+    clauses { i with stores := st, storeImpl := impl, ctor := ctor, revSupply := supply, scheme := sch, chainLen := cl, badCert := bc, badHow := bh } o = clauses i o ∧
+    inDomain { i with stores := st, storeImpl := impl, ctor := ctor, revSupply := supply, scheme := sch, chainLen := cl, badCert := bc, badHow := bh } = inDomain i := by
   refine ⟨?_, ?_, ?_⟩
   · simp only [run, process_irrel]
   · simp only [clauses, enfOf, clausesFor_irrel]
   · rfl
 end Irrel
+
+/-- the chain the concretisation mints realises `timestampOk`: whichever certificate is the bad
+one - the leaf, a middle one, the LAST one or the only one - the validation fails (seeded change C02-18
+forgets the last / only certificate) -/
+theorem timestampTruth_chainValidity (i : Input) (h : concretisationOK i = true) :
+    timestampTruth (chainValidity i) = i.timestampOk := by
+  have hb : i.badCert < (if i.chainLen == 0 then 2 else i.chainLen) := by
+    simp only [concretisationOK, Bool.and_eq_true, decide_eq_true_eq] at h
+    exact h.1.1.1.1
+  cases hts : i.timestampOk with
+  | true => simp [timestampTruth, chainValidity, hts]
+  | false =>
+    simp only [timestampTruth, chainValidity, hts, Bool.false_or]
+    rw [List.all_eq_false]
+    refine ⟨false, ?_, by simp⟩
+    rw [List.mem_map]
+    exact ⟨i.badCert, List.mem_range.mpr hb, by simp⟩
+
+/-- dropping the last certificate from the check is observable: a chain whose only bad certificate is the last one -/
+example : timestampTruth [true, true, false] = false ∧ timestampTruth ([true, true, false].dropLast) = true := by decide
 
 /-- an unloadable store of the needed type fails the load at every position of the list -/
 theorem trustOf_broken_anywhere (pre post : List StoreKind) :
@@ -658,6 +678,19 @@ example : (run { brokenBeforeGood with level := "audit" }).accepted = true ∧
       some { type := "authenticity", action := "log", failed := true } := by decide
 /-- an observation that accepts it under strict (what C02-13 makes the code do) violates the property -/
 example : Holds brokenBeforeGood { (run { brokenBeforeGood with trust := .found }) with accepted := true } = false := by decide
+/-- a self-signed signing certificate that had expired before the signing time, signing-authority scheme
+(seeded change C02-18): rejected under strict, reported with action log under audit -/
+def selfSignedExpiredSA : Input :=
+  { plainAccepted with
+    timestampOk := false, scheme := "signingAuthority", chainLen := 1, badCert := 0, badHow := "expired",
+    stores := [.anchor], storeImpl := "fake", ctor := "NewVerifierWithOptions", revSupply := "validator" }
+example : concretisationOK selfSignedExpiredSA = true ∧ (run selfSignedExpiredSA).accepted = false ∧
+    chainValidity selfSignedExpiredSA = [false] := by decide
+example : (run { selfSignedExpiredSA with level := "audit" }).accepted = true ∧
+    (run { selfSignedExpiredSA with level := "audit" }).results.contains
+      { type := "authenticTimestamp", action := "log", failed := true } = true := by decide
+/-- what C02-18 makes the code report (the validation passed) violates the property -/
+example : Holds selfSignedExpiredSA (run { selfSignedExpiredSA with timestampOk := true }) = false := by decide
 /-- deprecated constructor + deprecated client reporting revoked (seeded change C02-14): rejected under strict -/
 def clientRevoked : Input :=
   { plainAccepted with revocation := .revoked, ctor := "NewWithOptions", revSupply := "client", storeImpl := "fake" }
